@@ -56,7 +56,8 @@ type Contract struct {
 	Opaque   bool
 	Ghost    bool // ghost field accessor
 	Rec      bool // recursive spec function (uninterpreted + unfolding axiom)
-	Auto     bool // trusted lemma whose ensures are asserted as global axioms
+	Auto     bool // lemma whose statement (requires ==> ensures) is asserted as a global axiom
+	Dec      *Clause // function-level variant (recursive lemmas)
 	Inline   bool
 	Pure     bool // assigns none && no allocation visible
 	File     string
@@ -628,7 +629,8 @@ func buildContract(b []rawLine, sf specFile, af *ast.File, fd *ast.FuncDecl, fse
 			curLoop.Invs = append(curLoop.Invs, &Clause{Kind: "invariant", Text: r.text, Pos: pos(r), Props: strings.Fields(r.arg)})
 		case "decreases":
 			if curLoop == nil {
-				return nil, fmt.Errorf("%s: decreases outside loop", pos(r))
+				c.Dec = &Clause{Kind: "decreases", Text: r.text, Pos: pos(r)}
+				continue
 			}
 			curLoop.Dec = &Clause{Kind: "decreases", Text: r.text, Pos: pos(r)}
 		default:
@@ -739,6 +741,10 @@ func genPackage(pkgName string, cs []*Contract) ([]byte, error) {
 		if c.Alloc != nil {
 			c.Alloc.FnName = fmt.Sprintf("Vc_%s_alloc", c.id)
 			fmt.Fprintf(&body, "func %s(%s) int {\n%s\treturn %s\n}\n\n", c.Alloc.FnName, pre, lets, rewriteExpr(c.Alloc.Text))
+		}
+		if c.Dec != nil {
+			c.Dec.FnName = fmt.Sprintf("Vc_%s_dec", c.id)
+			fmt.Fprintf(&body, "func %s(%s) int {\n%s\treturn %s\n}\n\n", c.Dec.FnName, pre, lets, rewriteExpr(c.Dec.Text))
 		}
 		var ords []int
 		for o := range c.Loops {
